@@ -18,7 +18,7 @@ ASSUMPTIONS = ["models/gear102.py reads IEC 62386-102:2014 9.14/11.7: RANDOMISE,
                "a driver transmits send-twice commands twice and wraps collisions as BackwardFrameError"]
 EXHAUSTIVE = {"quick": False, "thorough": False}
 REQUIRED_ANCHORS = {"all": ["runs_completed", "clash_restarts", "no_addresses_left", "found_at_0xffffff",
-                            "program_failure_raised", "Frame.__setitem__", "interleaved_pairs", "abandoned_sequences"]}
+                            "program_failure_raised", "Frame.__setitem__", "interleaved_pairs", "abandoned_sequences", "reused_argument_runs"]}
 SHARD_TIMEOUT = {"quick": 600, "thorough": 3000}
 
 SCHEDULES = ["uniform", "tiny", "extremes", "pair_clash", "reuse_earlier", "withdrawn_redraw", "dense", "long_clash"]
@@ -302,6 +302,55 @@ def run_case(case, r, res, collect=None):
                       f"{len(participants)} participants, {len(free)} permitted free addresses: {len(assigned)} units addressed, expected {want}", wit)
 
 
+def run_reused_arguments(desc, seed, res):
+    """The application keeps its list of permitted addresses and hands the same object to one run after another (a dry run
+    first, then the real one; or one run per bus).  Each run behaves as if it had been given a fresh, equal list."""
+    import random
+    from dali.sequences import Commissioning
+    from models.gear102 import Gear
+    from models.bus import Bus
+
+    def one_run(pre, sseed, arg, readdress, dry):
+        units = []
+        sched = Scheduler("uniform", random.Random(sseed), units)
+        for i, sa in enumerate(pre):
+            units.append(Gear(short=sa, draw=sched.draw, name=i))
+        bus = Bus(units)
+        bus.bound = 200000
+        try:
+            bus.run_sequence(Commissioning(available_addresses=arg, readdress=readdress, dry_run=dry))
+        except Exception as e:
+            return ("raised", type(e).__name__)
+        return [u.short for u in units]
+    for t in range(desc["n"]):
+        r = rng(seed, "C07", "reused", t)
+        pre = [None if r.random() < 0.6 else r.randrange(64) for _ in range(r.randint(1, 12))]
+        orig = r.sample(range(64), r.randint(1, 20))
+        if r.random() < 0.5:
+            orig.sort()
+        shape = r.choice(["list", "list", "tuple", "set", "range"])
+        if shape == "range":
+            lo = r.randrange(60)
+            orig = list(range(lo, r.randint(lo + 1, 64)))
+        mk = {"list": list, "tuple": tuple, "set": set, "range": lambda o: range(o[0], o[-1] + 1)}[shape]
+        shared = mk(orig)
+        readdress = r.random() < 0.4
+        plan_ = r.choice([("dry", "real"), ("real", "real"), ("dry", "dry", "real")])
+        seeds = [r.getrandbits(32) for _ in plan_]
+        res.evaluations += 1
+        res.distinct += 1
+        res.hit("reused_argument_runs")
+        wit = {"pre": pre, "permitted": sorted(orig) if shape == "set" else orig, "shape": shape, "runs": list(plan_), "readdress": readdress}
+        for k, (what, sd) in enumerate(zip(plan_, seeds)):
+            got = one_run(pre, sd, shared, readdress, what == "dry")
+            ref = one_run(pre, sd, mk(orig), readdress, what == "dry")
+            if got != ref:
+                res.violation("C07/reused-argument/run-differs", f"run {k + 1} ({what}) of {list(plan_)} with the application's own "
+                              f"{shape} of permitted addresses ends with {got}; given a fresh equal {shape} it ends with {ref} "
+                              f"(the application's object now reads {list(shared) if shape != 'set' else sorted(shared)})", wit)
+                break
+
+
 def run_shard(desc, tier, seed):
     from vlib.common import digest
     res = Result()
@@ -315,6 +364,7 @@ def run_shard(desc, tier, seed):
         return res
     if desc["part"] == "interleaved":
         run_interleaved(desc, seed, res)
+        run_reused_arguments(desc, seed, res)
         return res
     for i in range(desc["n"]):
         r = rng(seed, "C07", desc["part"], i)
